@@ -22,7 +22,7 @@ from io import BytesIO
 from bitcoinlib.encoding import *
 from bitcoinlib.main import *
 from bitcoinlib.config.opcodes import *
-from bitcoinlib.keys import Signature, Key
+from bitcoinlib.keys import Signature, Key, BKeyError
 
 
 _logger = logging.getLogger(__name__)
@@ -357,8 +357,12 @@ class Script(object):
                     hash_type = data.hash_type
                     blueprint.append('signature')
                 elif data_type == 'key':
-                    keys.append(Key(data))
-                    blueprint.append('key')
+                    try:
+                        keys.append(Key(data))
+                        blueprint.append('key')
+                    except BKeyError:
+                        # Shaped like a public key but not a point of the curve: plain data
+                        blueprint.append('data-%d' % len(data))
                 elif data_type == 'key_object':
                     keys.append(data)
                     blueprint.append('key')
